@@ -123,6 +123,16 @@ class MemFS:
             def open(self, mode="r", buffering=-1, encoding=None, errors=None, newline=None):
                 return fs.open(self, mode=mode, encoding=encoding, newline=newline)
 
+            def read_text(self, encoding=None, errors=None):
+                # pathlib semantics: universal newlines (newline=None) translate CRLF and CR to LF
+                with fs.open(self, mode="r", encoding=encoding, newline=None) as fobj:
+                    return fobj.read().replace("\r\n", "\n").replace("\r", "\n")
+
+            def write_text(self, data, encoding=None, errors=None, newline=None):
+                with fs.open(self, mode="w", encoding=encoding, newline=newline) as fobj:
+                    fobj.write(data)
+                return len(data)
+
         self.Path = Path
         self._File = _File
         self.cwd = "/proj"
